@@ -36,7 +36,7 @@ type failer interface {
 func newCase(t *rapid.T, rec *ev.Rec, maxDepth int, prop string) *caseT {
 	d := genDb(t)
 	genViews(t, d)
-	g := &qgen{t: t, db: d}
+	g := &qgen{t: t, db: d, diffOK: prop == "C22"}
 	tq := g.genTop(maxDepth)
 	return finishCase(t, rec, d, tq, prop)
 }
@@ -90,6 +90,7 @@ func (c *caseT) labels(rec *ev.Rec) {
 	rec.LabelIf(c.hasOp("semijoin"), "q_semijoin")
 	rec.LabelIf(c.hasOp("times"), "q_times")
 	rec.LabelIf(c.hasOp("summarize"), "q_summarize")
+	rec.LabelIf(strings.Contains(c.text, " remove ") && c.tq.q.hasSilent(), "q_union_or_minus_of_different_column_sets")
 	rec.LabelIf(c.hasOp("union"), "q_union")
 	rec.LabelIf(c.hasOp("intersect"), "q_intersect")
 	rec.LabelIf(c.hasOp("minus"), "q_minus")
